@@ -16,8 +16,11 @@ Definition opt_ok (c : seq * option seq) : bool :=
 Definition opt_mismatches (l : list (seq * option seq)) : list N := mism opt_ok 0 l.
 
 (* Lake plans: the analysed DAG (pool scan written as OScan with the pool's
-   sort key) and whether the real optimizer inserted a Slicer. *)
-Definition slicer_ok (c : seq * bool) : bool :=
-  opt_eqb Bool.eqb (lake_order_required (fst c)) (Some (snd c)).
+   sort key), whether the real optimizer inserted a Slicer, and whether it gave
+   the Lister a key-range pruner. *)
+Definition lake_ok (c : seq * bool * bool) : bool :=
+  let '(s, slicer, pruner) := c in
+  opt_eqb Bool.eqb (lake_order_required s) (Some slicer)
+  && opt_eqb Bool.eqb (lake_pruner_present s) (Some pruner).
 
-Definition slicer_mismatches (l : list (seq * bool)) : list N := mism slicer_ok 0 l.
+Definition lake_mismatches (l : list (seq * bool * bool)) : list N := mism lake_ok 0 l.
